@@ -427,8 +427,7 @@ class Specs:
             os.pure = True
             os.bound = st.bound
             return ex.ev1(a[0], os, fr)
-        if name == 'sum' and len(a) == 1 and isinstance(a[0], ast.GeneratorExp) and len(a[0].generators) == 1 \
-                and not a[0].generators[0].ifs:
+        if name == 'sum' and len(a) == 1 and isinstance(a[0], ast.GeneratorExp) and len(a[0].generators) == 1:
             # sum(e(x) for x in <list>): the finite sum of the mapped sequence (same function lsum as the code's sum())
             from . import calls
             g = a[0].generators[0]
@@ -443,7 +442,10 @@ class Specs:
             ps2.bound = st.bound + [b]
             ex.assign_bound(g.target, seqv.at(i), b)
             body = ex.ev1(a[0].elt, ps2, fr)
-            arr = z3.Lambda([i], sym.to_real(body.t))
+            bt = sym.to_real(body.t)
+            if g.ifs:     # filtered sum: skipped elements contribute 0
+                bt = z3.If(z3.And(*[truth(ex.ev1(c, ps2, fr), st.heap) for c in g.ifs]), bt, z3.RealVal(0))
+            arr = z3.Lambda([i], bt)
             return vreal(calls.sum_term(arr, seqv.n))
         if name in ('all', 'any') and len(a) == 1 and isinstance(a[0], ast.GeneratorExp):
             return vbool(self.quantify(ex, a[0], st, fr, name == 'all'))
